@@ -344,6 +344,7 @@ impl Session {
 
 // ------------------------------------------------------------------ GUI model + oracles
 
+#[derive(Clone)]
 pub struct CurPos {
     /// all positions of the game, root last
     pub line: Vec<Pos>,
@@ -1400,7 +1401,29 @@ pub fn gen_plan_draw(seed: u64, thorough: bool, imbalanced: &[Pos]) -> EnginePla
     let knobs = Knobs { poll_interval: *rng.pick(POLL_INTERVALS), tt_capacity: *rng.pick(TT_CAPS) };
     let n = 2 + rng.usize_below(if thorough { 6 } else { 3 });
     let mut cycles = Vec::new();
+    let mut prev_game: Option<CurPos> = None;
     for ci in 0..n {
+        // the GUI re-sends the running game as a FEN of a later position (true clocks and move
+        // number, no move history before it): occurrences before the cut must no longer count
+        if let Some(pg) = prev_game.clone().filter(|g| g.moves.len() >= 2) {
+            if rng.chance(1, 3) {
+                let j = 1 + rng.usize_below(pg.moves.len() - 1);
+                let cut = pg.line[j].clone();
+                let mut moves: Vec<String> = pg.moves[j..].to_vec();
+                let keep = rng.usize_below(moves.len() + 1);
+                moves.truncate(keep);
+                if let Some(game) = CurPos::from_spec(&Some(cut.to_fen()), &moves) {
+                    let mut go = GoSpec::depth(1 + rng.below(2));
+                    go.layout = rng.next_u64();
+                    if rng.chance(2, 3) && game.root().has_legal_move() {
+                        go.depth = Some(1);
+                        go.searchmoves_picks = vec![rng.below(256) as u32];
+                    }
+                    cycles.push(Cycle { newgame: rng.chance(1, 3), pos: PosSpec::Set { fen: game.fen.clone(), moves: game.moves.clone() }, pre_lines: vec![], go, ns_per_node: 1000, gap_ns: 1_000_000, jumps: vec![], stop_before_dequeue: false, events: vec![], post_lines: vec![] });
+                    continue;
+                }
+            }
+        }
         // start position: imbalanced pool entry, clock drawn from 0..150 half the time
         let mut start = rng.pick(imbalanced).clone();
         if rng.chance(1, 2) && start.ep.is_none() {
@@ -1413,6 +1436,7 @@ pub fn gen_plan_draw(seed: u64, thorough: bool, imbalanced: &[Pos]) -> EnginePla
         let one = [start];
         let max_len = *rng.pick(&[0usize, 4, 8, 12, 24]);
         let game = random_game(&mut rng, &one, max_len, true);
+        prev_game = Some(CurPos { line: game.line.clone(), fen: game.fen.clone(), moves: game.moves.clone() });
         let root = game.root().clone();
         let legal = root.legal_moves();
         let mut go = GoSpec::depth(1 + rng.below(if piece_count(&root) > 12 { 2 } else { 3 }));
